@@ -49,6 +49,9 @@ CLAIMED["C05"] = dict(engine="pending", tech="TLA+ model Pending.tla (lock regio
 CLAIMED["C18"] = dict(engine="server-life", tech="TLA+ model ServerLife.tla (acceptors, consumer, session goroutines, the three steps of Close, select arms incl. the panicking ones) checked exhaustively by TLC; schedules drawn from the model by seeded TLC simulation are forced onto a real Server through gates at verif hooks, one child process per case; TLC monitor SrvObs (C18_NoPanic, C18_ServeReturnsClosed, C18_CallbacksExact, C18_AllFinished, C18_NoLeak)",
    text="Every placement of the Close steps relative to start-up, accept, enqueue, consume, handshake outcomes and established sessions is checked on the model; about 300 (thorough: 3000) of those schedules are driven through a real Server with real clients, process death = panic, goroutine census at the end.", ref="DESIGN.md 3.5, 5 (C18)",
    note="Model exhaustive for 1 listener / 2 connections / queue capacity 1; real-code side samples schedules (seeded); a Go select's arm cannot be forced, so verdicts come from the monitor on what really happened; in-process listeners in the quick tier; trusted: TLC, CommunityModules Json, Go runtime.")
+CLAIMED["C20"] = dict(engine="mux", tech="TLA+ model Mux.tla (first-match scan per kind, error stops the loop) enumerated by TLC over every handler table x inbound sequence inside the bounds; one real dispatch per model transition on a real EnvelopeMux over a real TCP session (real Server / ListenClient); TLC monitor MuxObs (C20_FirstMatch, C20_ErrorStops, C20_Continues)",
+   text="All tables of up to 2 (thorough 3) handlers per kind over 5 predicate shapes and ok/err outcomes, all inbound sequences of up to 2 (thorough 3) envelopes, both roles: about 10^4 cases, each executed for real; handlers log which of them ran and with what envelope.", ref="DESIGN.md 3.7, 5 (C20)",
+   note="Unbuffered channel streams make dispatch order equal to arrival order; events are listed in that causal order; a handler error is given 40 ms to finish the session; trusted: TLC, CommunityModules Json, Go runtime.")
 CLAIMED["C06"]["engine"] = "hs-server+hs-client"
 CLAIMED["C06"]["note"] = HS_NOTE + " Both roles: server role on HsServer behaviours, client role on HsClient behaviours."
 CLAIMED["C06"]["tech"] += " and HsClient.tla + C06_ClientSendGuard for the client role"
@@ -82,6 +85,9 @@ m = {
            "baseline_off_cmd": "cd /repo && GOFLAGS=-mod=mod GOPROXY=off GOSUMDB=off GOTOOLCHAIN=local go test -json -vet=off -count=1 -timeout 25m ./...",
            "source_commits": hook_commits, "add_only": True},
  "engines": [
+   {"name": "mux", "path": "spec/Mux.tla spec/MuxMC.tla spec/MuxProps.tla spec/MuxObs.tla harness/muxd tools/engines/mux.py",
+    "serves_properties": ["C20"],
+    "kind_free_text": "TLA+ model of the dispatcher, exhaustive TLC enumeration of tables and inbound sequences, one real dispatch per case, TLC trace monitor"},
    {"name": "server-life", "path": "spec/ServerLife.tla spec/ServerLifeMC.tla spec/SrvProps.tla spec/SrvObs.tla harness/srvlife tools/engines/srvlife.py",
     "serves_properties": ["C18"],
     "kind_free_text": "TLA+ model of Server start/serve/stop, exhaustive TLC check, simulated schedules forced on a real Server via hook gates (process per case), TLC trace monitor"},
